@@ -87,5 +87,19 @@ func init() {
 	props["C01"] = crawlProp("exploration", crawlRule, 160, 6000, scen.CrawlOpts{Prop: "C01", MinSeeds: 1, MaxSeeds: 8, Faults: true, Hops: true, Adversarial: true})
 	props["C02"] = crawlProp("exploration", crawlRule, 160, 6000, scen.CrawlOpts{Prop: "C02", MinSeeds: 1, MaxSeeds: 6, Faults: true, BodyVariety: true})
 	props["C06"] = crawlProp("exploration", crawlRule, 160, 6000, scen.CrawlOpts{Prop: "C06", MinSeeds: 1, MaxSeeds: 6, Faults: true, Hops: true, Adversarial: true})
+	props["C05"] = &propDef{level: "exploration", rule: "one case = one generated (filter set, web site) pair: include/exclude host, string and regex filters x URL texts (absolute, upper-case, scheme-relative, userinfo, explicit port, fragment, other schemes, loopback, dot-less, archive.org) planted as seeds, redirect targets and assets, run under one seeded schedule; every request and every dial that reaches the simulated network is judged by a reference scope predicate; distinct/non-trivial as for C01", assumptions: append([]string{"the deciding power is the generator of URL texts x filters; schedules add little for this property (stated in DESIGN.md)"}, e2eAssumptions...), components: e2eComponents, quickRuns: 240, thorRuns: 8000,
+		gen: func(t *scen.Tape, i int, tier string) *scen.Scenario {
+			if i%4 == 3 {
+				sc := scen.GenCrawl(t, scen.CrawlOpts{Prop: "C05", MinSeeds: 2, MaxSeeds: 6, Adversarial: true, Hops: true})
+				return sc
+			}
+			return scen.GenScope(t)
+		}}
+	props["C07"] = &propDef{level: "exploration", rule: "one case = 1-3 generated HTML documents (embedding attribute x quoting x reference form x nesting x decoy text) with settings of disable-html-tag / capture-alternate-pages / disable-assets-capture / max-hops, crawled end to end under one seeded schedule; planted requisites (resolved by net/url against the page URL) must appear in the origin log before the page's seed is finished, anchors must be handed to the queue; distinct/non-trivial as for C01", assumptions: append([]string{"completeness over documents is sampled by the generator; the simulator contributes the end-to-end observation (extraction, feedback pass, normalisation, scope, fetch)"}, e2eAssumptions...), components: e2eComponents, quickRuns: 200, thorRuns: 8000,
+		gen: func(t *scen.Tape, i int, tier string) *scen.Scenario { return scen.GenHTML(t) }}
+	props["C11"] = crawlProp("exploration", crawlRule+"; at every stage boundary the item tree handed to the hook is re-checked for well-formedness with public getters, and at the finisher's decision 'complete' is compared with 'no node awaits fetching or post-processing'", 200, 8000, scen.CrawlOpts{Prop: "C11", MinSeeds: 1, MaxSeeds: 8, Faults: true, Hops: true, Adversarial: true})
+	props["C17"] = crawlProp("exploration", crawlRule+"; at idle and after stop the metrics (total URLs crawled, finished seeds, worker gauges, mean response time) are compared with ground truth counted from hook events", 200, 6000, scen.CrawlOpts{Prop: "C17", MinSeeds: 1, MaxSeeds: 8, Faults: true, Hops: true})
+	props["C08"] = crawlProp("exploration", crawlRule+"; every seen-store check is judged against a reference model of completed records (stamped with scheduler steps)", 200, 6000, scen.CrawlOpts{Prop: "C08", MinSeeds: 2, MaxSeeds: 8, Faults: false, Hops: true, Adversarial: true})
+	props["C09"] = crawlProp("exploration", crawlRule+"; every canonical URL that flows through a crawl is re-rendered under other map-iteration orders, re-normalised and shape-checked", 200, 6000, scen.CrawlOpts{Prop: "C09", MinSeeds: 2, MaxSeeds: 8, Hops: true, Adversarial: true})
 	_ = fmt.Sprint
 }
